@@ -295,6 +295,25 @@ def run(check, an: Analysis):
     check.instance('F', 'put:buffer.append', loop_ok and n_iter > 0, where_fn(put.fn),
                    'messages join a consumer buffer at its end', nontrivial=False)
     check.floor('F', 2)
+    # every channel has state of its own, made by its constructor (a default in the class
+    # body would be one object shared by all of them), and its put()/close() are over after
+    # one postponement: they never wait for consumers
+    for field, fresh in (('_consumer_buffers', True), ('_notification', True), ('_closed', False)):
+        made = rules.constructor_field(an, CHANNEL, field)
+        ok = made is not None and (not fresh or isinstance(made, (ast.Call, ast.Dict, ast.List)))
+        check.instance('P', 'Channel.__init__:%s' % field, ok,
+                       where_fn(an.method(CHANNEL, '__init__')),
+                       'set per instance by the constructor: %s' % (
+                           ast.unparse(made) if made is not None else None))
+    for name in ('put', 'close'):
+        op = an.callee(CHANNEL, name)
+        counts = set()
+        for path in an.paths(op):
+            if path.normal:
+                counts.add(sum(1 for e in path.events if is_suspension(e) and e.depth == 0))
+        check.instance('P', 'Channel.%s:one-postponement' % name, counts == {1},
+                       where_fn(op.fn), 'every completed %s() suspended exactly once '
+                       '(suspensions per normal path: %s)' % (name, sorted(counts)))
     # a consumer that leaves -- also one that is cancelled just as it leaves by itself --
     # does not disturb the others: a cancellation that loses the race against the end of
     # its task is disarmed (it would otherwise be thrown into the finished task and end
